@@ -34,6 +34,7 @@ def shards(tier, seed):
     return [dict(i=i, n=n) for i in range(n)]
 
 
+INTERNAL = (SystemError, MemoryError, RecursionError)
 POST = {}
 IV = {}
 
@@ -195,7 +196,7 @@ def dataclass_case(sink, seed, idx, max_fields):  # noqa: C901
     except Exception as e:  # noqa: BLE001
         made, exc, cls = False, e, None
     if expect_reject:
-        sink.check(not made and isinstance(exc, TypeError), 'reject/non-init-pytree-node', 'declaring a non-init field as a pytree node is rejected with TypeError', ident, lambda: repr(exc))
+        sink.check(not made and isinstance(exc, Exception) and not isinstance(exc, INTERNAL), 'reject/non-init-pytree-node', 'declaring a non-init field as a pytree node is rejected', ident, lambda: repr(exc))
         sink.count('rejected:decorator')
         sink.case(harness.fp('dc', repr(fields), repr(flags), route), len(fields) >= 2, None)
         return
@@ -280,7 +281,9 @@ def dataclass_case(sink, seed, idx, max_fields):  # noqa: C901
                 out = 'accepted'
             except Exception as e:  # noqa: BLE001
                 out = type(e)
-            sink.check(out is exc_t, f'reject/{what}', f'{what} is rejected with {exc_t.__name__}', ident, repr(out))
+            # the property says 'is rejected' without naming a type: any exception but an internal error (the type seen is recorded)
+            sink.check(out != 'accepted' and not issubclass(out, INTERNAL), f'reject/{what}', f'{what} is rejected', ident, repr(out))
+            sink.cell('rejection-type', what, getattr(out, '__name__', out))
         # ---- otherwise the class dataclasses.dataclass would produce
         a, b = dataclasses.fields(cls), dataclasses.fields(twin)
         sig = lambda fs: [(f.name, f.type, f.default is dataclasses.MISSING, f.default_factory is dataclasses.MISSING, f.init, f.repr, f.hash, f.compare, f.kw_only) for f in fs]  # noqa: E731
